@@ -726,9 +726,6 @@ def run_history(exe, ops, args=()):
     return common.run_cases(exe, [encode_op(o) for o in ops], args=args)
 
 
-UBSAN_BENIGN = ("signed_integer_overflow", "negation_of", "shift", "alignment", "load_of_misaligned")
-
-
 def key_of_crash(crash, op):
     entry = ENTRY.get(op["op"])
     if entry is None:
@@ -783,7 +780,6 @@ def evaluate(variant, exes, ops, classes=None, counters=None, observations=None)
 def worker(job):
     exes, variant, widx, plan, tier = job
     part = common.new_part()
-    rng0 = Rng(PROP, common.seed(), variant, widx)
     hists = []
     for fam, n in plan:
         for j in range(n):
@@ -946,6 +942,8 @@ def minimise_job(job):
     w = dict(w)
     w.update({"history": ops, "failing_op_index": v[1], "failing_op": ops[v[1]], "expected": v[2],
               "observed": v[3], "minimised": True})
+    if len(ops) <= 64:
+        w["payload_hex"] = [encode_op(o).hex() for o in ops]
     if key.startswith("bounds:ini_buf_gen"):
         # attach the sanitizer's view: same history with exact-size buffers forced
         res = run_history(exes[w["variant"]], ops, args=("exact",))
